@@ -301,7 +301,21 @@ def oracle(sc):
             other.load(p)
             return other
 
-        for route, reader in (("from_hdf5", lambda: GMMMachine.from_hdf5(p, ubm=ubm)), ("load() into a used machine", into_used)):
+        def into_near():
+            # ... or holds almost the same Gaussians (a machine one nearly-converged step further, or a sibling started from the
+            # same values) under other settings: after load() it is the file's machine, settings and last bits included
+            import copy
+
+            other = copy.deepcopy(g)
+            other.means = np.asarray(other.means) * (1 + 1e-9)
+            other.variances = np.asarray(other.variances) * (1 + 1e-9)
+            other.update_means, other.update_variances, other.update_weights = (not bool(g.update_means)), (not bool(g.update_variances)), (not bool(g.update_weights))
+            other.max_fitting_steps = 7 if g.max_fitting_steps != 7 else 9
+            other.log_likelihood(x)
+            other.load(p)
+            return other
+
+        for route, reader in (("from_hdf5", lambda: GMMMachine.from_hdf5(p, ubm=ubm)), ("load() into a used machine", into_used), ("load() into a machine holding almost the same Gaussians", into_near)):
             l = core.impl(reader)
             if isinstance(l, core.ImplError):
                 return {"sig": "load-raises", "what": f"{route}: {l!r}"}
